@@ -86,8 +86,198 @@ func profDamage(en *Env) {
 	for b := 0; b < bases; b++ {
 		trials += damageBase(en, b)
 	}
+	live := 0
+	lb := 3 * en.Scale
+	if en.Thorough() {
+		lb = 24 * en.Scale
+	}
+	for b := 0; b < lb; b++ {
+		live += liveDamage(en, b)
+	}
 	en.Summary["bases"] = bases
 	en.Summary["trials"] = trials
+	en.Summary["live_trials"] = live
+}
+
+// liveDamage damages a file of an *open* database behind the engine's back (cut to many lengths, bytes
+// overwritten, single bits flipped), reads every key - twice, in orders that alternate between files whose
+// records sit at the same offsets (same-sized records: whatever buffer the engine reuses holds a well-formed
+// block of another file) - runs Fold, and restores the file before the next trial.
+func liveDamage(en *Env, b int) int {
+	r := en.R
+	perFile := 3 + r.Intn(3)
+	nfiles := 3
+	nkeys := perFile * nfiles
+	dir := en.FreshDir()
+	defer en.Drop(dir)
+	u := h.SimpleKeys(nkeys, 6)
+	vs := h.NewValues()
+	vlen := 40 + r.Intn(200)
+	recLen := h.RecLen(6, vlen)
+	cfg := h.Cfg{Index: h.IndexTypes[b%3], Shards: 4, IO: "std", Limit: int64(perFile*recLen + recLen/2), Sync: "no"}
+	if b%3 == 2 {
+		cfg.IO = "mmap" // no cuts there: shrinking a file under a live mapping is a SIGBUS by design of the OS
+	}
+	e := h.NewEng(dir, en.Work+"/scratch", cfg, u, vs, en.T)
+	en.T.Emit(h.Ev{"ev": "reset", "n": nkeys, "seed": en.Seed, "prof": "ldamage"})
+	if e.Open(cfg) != "ok" {
+		return 0
+	}
+	defer func() {
+		if !e.Dead && e.DB != nil {
+			h.WithoutCapture(func() { e.DB.Close() })
+		}
+	}()
+	for k := 1; k <= nkeys && !e.Dead; k++ {
+		id, _ := vs.New(vlen)
+		e.Put(k, id)
+	}
+	if e.Dead {
+		return 0
+	}
+	e.Dump()
+	ids := h.DataFileIDs(dir)
+	if len(ids) < 2 {
+		return 0
+	}
+	trials := 0
+	for _, id := range ids {
+		name := filepath.Base(datafile.GetFileName(dir, uint32(id), datafile.DataFileSuffix))
+		path := filepath.Join(dir, name)
+		orig, err := os.ReadFile(path)
+		if err != nil {
+			continue
+		}
+		logical := len(orig)
+		if cfg.IO == "mmap" {
+			// the mapped file is extended; the records end where the scan ends
+			logical = 0
+			if rs, _ := e.ScanFile(dir, id, -1); len(rs) > 0 {
+				lr := rs[len(rs)-1]
+				logical = lr.B*h.BlockSize + lr.O + lr.S
+			}
+		}
+		if logical == 0 {
+			continue
+		}
+		type dmg struct {
+			kind          string
+			off, bit, cut int
+			data          []byte
+		}
+		var ds []dmg
+		if cfg.IO == "std" {
+			step := 40
+			if en.Thorough() {
+				step = 9
+			}
+			for c := 0; c <= logical; c += 1 + r.Intn(step) {
+				ds = append(ds, dmg{kind: "trunc", cut: c})
+			}
+			for i := 0; i*recLen <= logical; i++ { // record boundaries and their neighbours
+				for _, d := range []int{-1, 0, 1, 7} {
+					if c := i*recLen + d; c >= 0 && c < logical {
+						ds = append(ds, dmg{kind: "trunc", cut: c})
+					}
+				}
+			}
+		}
+		nflip := 12
+		if en.Thorough() {
+			nflip = 60
+		}
+		for i := 0; i < nflip; i++ {
+			ds = append(ds, dmg{kind: "flip", off: r.Intn(logical), bit: r.Intn(8)})
+		}
+		for i := 0; i < nflip/4; i++ {
+			bs := make([]byte, 2+r.Intn(12))
+			r.Read(bs)
+			ds = append(ds, dmg{kind: "bytes", off: r.Intn(logical), data: bs})
+		}
+		for _, d := range ds {
+			// reads before the damage leave the engine's buffers holding blocks of the other files
+			for i := 0; i < 2; i++ {
+				k := 1 + r.Intn(nkeys)
+				h.Guard(h.CallTimeout, func() error { _, err := e.DB.Get(u.Key(k)); return err })
+			}
+			f, err := os.OpenFile(path, os.O_RDWR, 0644)
+			if err != nil {
+				break
+			}
+			switch d.kind {
+			case "trunc":
+				f.Truncate(int64(d.cut))
+			case "flip":
+				f.WriteAt([]byte{orig[d.off] ^ 1<<uint(d.bit)}, int64(d.off))
+			case "bytes":
+				n := len(d.data)
+				if d.off+n > logical {
+					n = logical - d.off
+				}
+				f.WriteAt(d.data[:n], int64(d.off))
+			}
+			f.Close()
+			gets := []map[string]any{}
+			get := func(k int) {
+				var bts []byte
+				name := h.Guard(h.CallTimeout, func() error {
+					var err error
+					bts, err = e.DB.Get(u.Key(k))
+					return err
+				})
+				v := h.VErr
+				switch name {
+				case "ok":
+					v = vs.ID(bts)
+				case "notfound":
+					v = h.VNil
+				}
+				gets = append(gets, map[string]any{"k": k, "v": v, "err": name})
+				if name == "panic" || name == "stuck" {
+					e.Dead = true
+				}
+			}
+			// order 1: the i-th record of every file in turn; order 2: random
+			for i := 0; i < perFile+1 && !e.Dead; i++ {
+				for fI := 0; fI <= nfiles && !e.Dead; fI++ {
+					if k := fI*perFile + i + 1; k <= nkeys {
+						get(k)
+					}
+				}
+			}
+			for i := 0; i < nkeys && !e.Dead; i++ {
+				get(1 + r.Intn(nkeys))
+			}
+			fk, fv := []int{}, []int{}
+			folderr := "ok"
+			if !e.Dead {
+				folderr = h.Guard(h.CallTimeout, func() error {
+					return e.DB.Fold(func(k, v []byte) bool {
+						fk = append(fk, u.Rank(k))
+						fv = append(fv, vs.ID(v))
+						return true
+					})
+				})
+			}
+			// restore the file (same inode: the engine keeps its descriptor / mapping)
+			if f, err := os.OpenFile(path, os.O_RDWR, 0644); err == nil {
+				f.WriteAt(orig, 0)
+				f.Truncate(int64(len(orig)))
+				f.Close()
+			}
+			en.T.Emit(h.Ev{"ev": "ldamage", "kind": d.kind, "file": name, "off": d.off, "bit": d.bit, "cut": d.cut, "io": cfg.IO,
+				"gets": gets, "fk": fk, "fv": fv, "folderr": folderr})
+			trials++
+			if folderr == "panic" || folderr == "stuck" {
+				e.Dead = true
+			}
+			if e.Dead {
+				h.ExitIfStuck("stuck", en.T)
+				return trials
+			}
+		}
+	}
+	return trials
 }
 
 func damageBase(en *Env, b int) int {
